@@ -1180,6 +1180,7 @@ class Color(object):
                 return v1 + (v2 - v1) * ((2.0 / 3.0) - vh) * 6.0
             return v1
 
+        h = h % 1.0
         if s == 0.0:
             r = 255.0 * l
             g = 255.0 * l
